@@ -102,6 +102,9 @@ TrSpSqueeze == IsEv("sp.squeeze") /\ LET ev == T[l]  r == SpSqueeze(SpPar(ev.kin
   Step(SpSet(ev, r.o), <<StOf(r.o), r.out, 1>>, <<StEv(ev), ev.out, ev.guard>>)
 TrSpHmacFinal == IsEv("sp.hmacfinal") /\ LET ev == T[l]  r == SpHmacFinal(ev.kind, objs[ev.obj], ev.key) IN
   Step(SpSet(ev, r.o), <<StOf(r.o), r.out, 1>>, <<StEv(ev), ev.out, ev.guard>>)
+\* an absorb call of 2^32 bytes and more: the value is out of TLC's reach, the law is not - the result is a function of
+\* the concatenated input (MC_Sponge: every partition), so one call and the same bytes in 1 GiB pieces agree
+TrSpBig == IsEv("sp.big") /\ LET ev == T[l] IN Step(objs, <<ev.pieces>>, <<ev.one>>)
 TrSpPad == IsEv("sp.pad") /\ LET ev == T[l]  o == SpPad(SpPar(ev.kind), objs[ev.obj]) IN
   Step(SpSet(ev, o), StOf(o), StEv(ev))
 TrSpCopy == IsEv("sp.copy") /\ LET ev == T[l]  o == objs[ev.src] IN
@@ -136,7 +139,7 @@ TrOsKdf == IsEv("os.kdf") /\ LET ev == T[l] IN
 TrOsHmac == IsEv("os.hmac") /\ LET ev == T[l] IN
   Step(objs, <<Hmac(SpPar(ev.kind).v, ev.key, ev["in"]), 1>>, <<ev.out, ev.guard>>)
 
-SpongeNext == TrSpInit \/ TrSpAbsorb \/ TrSpSqueeze \/ TrSpHmacFinal \/ TrSpPad \/ TrSpCopy \/ TrSpFree
+SpongeNext == TrSpInit \/ TrSpAbsorb \/ TrSpBig \/ TrSpSqueeze \/ TrSpHmacFinal \/ TrSpPad \/ TrSpCopy \/ TrSpFree
               \/ TrOsHash \/ TrOsPrf \/ TrOsPrfShortBig \/ TrOsMacVerify \/ TrOsKmac \/ TrOsKdf \/ TrOsHmac
 
 -----------------------------------------------------------------------------
